@@ -392,8 +392,8 @@ theorem inv_unique (s : St κ) (t : Task) (k : κ) (km : Bool) (h : Inv s) : Inv
 
 /-! ### the reaper -/
 
-theorem pending_reap_of (s : St κ) (u : Task) (h : Pending (reapStep s) u) : Pending s u := by
-  unfold reapStep at h
+theorem pending_reapCfg_of (aw : Bool) (s : St κ) (u : Task) (h : Pending (reapStepCfg aw s) u) : Pending s u := by
+  unfold reapStepCfg at h
   split at h
   · exact h
   · split at h
@@ -410,8 +410,9 @@ theorem pending_reap_of (s : St κ) (u : Task) (h : Pending (reapStep s) u) : Pe
         · exact Or.inl (by rw [hq]; exact List.mem_cons_of_mem _ h)
         · exact Or.inr h
 
-theorem pending_reap (s : St κ) (u : Task) (h : Pending s u) (hl : s.live u = true) : Pending (reapStep s) u := by
-  unfold reapStep
+theorem pending_reapCfg (aw : Bool) (s : St κ) (u : Task) (h : Pending s u) (hl : s.live u = true) :
+    Pending (reapStepCfg aw s) u := by
+  unfold reapStepCfg
   split
   · exact h
   · split
@@ -431,20 +432,20 @@ theorem pending_reap (s : St κ) (u : Task) (h : Pending s u) (hl : s.live u = t
           simp only [upd_apply]; split <;> simp [h]
         · exact Or.inr h
 
-theorem reap_fields (s : St κ) :
-    (reapStep s).owner = s.owner ∧ (reapStep s).names = s.names ∧ (reapStep s).entry = s.entry ∧
-    (reapStep s).ours = s.ours ∧ (reapStep s).live = s.live ∧ (reapStep s).started = s.started ∧
-    (reapStep s).foreign = s.foreign ∧ (reapStep s).parked = s.parked ∧ (reapStep s).keyErr = s.keyErr ∧
-    (reapStep s).claimed = s.claimed ∧ (reapStep s).selfEnq = s.selfEnq := by
-  unfold reapStep
+theorem reapCfg_fields (aw : Bool) (s : St κ) :
+    (reapStepCfg aw s).owner = s.owner ∧ (reapStepCfg aw s).names = s.names ∧ (reapStepCfg aw s).entry = s.entry ∧
+    (reapStepCfg aw s).ours = s.ours ∧ (reapStepCfg aw s).live = s.live ∧ (reapStepCfg aw s).started = s.started ∧
+    (reapStepCfg aw s).foreign = s.foreign ∧ (reapStepCfg aw s).parked = s.parked ∧ (reapStepCfg aw s).keyErr = s.keyErr ∧
+    (reapStepCfg aw s).claimed = s.claimed ∧ (reapStepCfg aw s).selfEnq = s.selfEnq := by
+  unfold reapStepCfg
   split
   · simp
   · split
     · simp
     · split <;> simp
 
-theorem inv_reap (s : St κ) (h : Inv s) : Inv (reapStep s) := by
-  obtain ⟨e1, e2, e3, e4, e5, e6, e7, e8, e9, e10, e11⟩ := reap_fields s
+theorem inv_reapCfg (aw : Bool) (s : St κ) (h : Inv s) : Inv (reapStepCfg aw s) := by
+  obtain ⟨e1, e2, e3, e4, e5, e6, e7, e8, e9, e10, e11⟩ := reapCfg_fields aw s
   obtain ⟨h1, h2, h3, h4, h5, h6, h7, h8, h9, h10, h11, h12⟩ := h
   constructor
   · intro k t; rw [e1, e2, e5, e4, e3]; exact h1 k t
@@ -452,21 +453,36 @@ theorem inv_reap (s : St κ) (h : Inv s) : Inv (reapStep s) := by
   · intro t; rw [e2]; exact h3 t
   · intro k t; rw [e10, e5, e1]
     intro hc hl ho
-    exact pending_reap s t (h4 k t hc hl ho) hl
+    exact pending_reapCfg aw s t (h4 k t hc hl ho) hl
   · intro t; rw [e4, e5, e7]; exact h5 t
   · intro t; rw [e5, e6]; exact h6 t
   · intro t; rw [e3, e5]; exact h7 t
   · intro t; rw [e8, e5]
     intro hp
-    exact ⟨(h8 t hp).1, pending_reap s t (h8 t hp).2 (h8 t hp).1⟩
+    exact ⟨(h8 t hp).1, pending_reapCfg aw s t (h8 t hp).2 (h8 t hp).1⟩
   · intro t; rw [e7, e11]
     intro hf hp
-    exact h9 t hf (pending_reap_of s t hp)
+    exact h9 t hf (pending_reapCfg_of aw s t hp)
   · intro t; rw [e6]
     intro hp
-    exact h10 t (pending_reap_of s t hp)
+    exact h10 t (pending_reapCfg_of aw s t hp)
   · intro k t; rw [e10, e6]; exact h11 k t
   · rw [e9]; exact h12
+
+theorem pending_reap_of (s : St κ) (u : Task) (h : Pending (reapStep s) u) : Pending s u :=
+  pending_reapCfg_of _ s u h
+
+theorem pending_reap (s : St κ) (u : Task) (h : Pending s u) (hl : s.live u = true) : Pending (reapStep s) u :=
+  pending_reapCfg _ s u h hl
+
+theorem reap_fields (s : St κ) :
+    (reapStep s).owner = s.owner ∧ (reapStep s).names = s.names ∧ (reapStep s).entry = s.entry ∧
+    (reapStep s).ours = s.ours ∧ (reapStep s).live = s.live ∧ (reapStep s).started = s.started ∧
+    (reapStep s).foreign = s.foreign ∧ (reapStep s).parked = s.parked ∧ (reapStep s).keyErr = s.keyErr ∧
+    (reapStep s).claimed = s.claimed ∧ (reapStep s).selfEnq = s.selfEnq :=
+  reapCfg_fields _ s
+
+theorem inv_reap (s : St κ) (h : Inv s) : Inv (reapStep s) := inv_reapCfg _ s h
 
 /-! ### exit: the `finally` of `run_coro` -/
 
@@ -812,61 +828,55 @@ theorem unique_new_in_queue (s : St κ) (t : Task) (k : κ) (km : Bool) (x : Tas
 
 /-! ### the reaper really ends every task it was handed (runtime assumption: a cancelled task ends) -/
 
-theorem reapCycle_spec (s : St κ) (hd : Task) (q : List Task) (hb : busy s = false) (hq : s.reaperQ = hd :: q) :
-    (reapCycle s).reaperQ = q ∧ busy (reapCycle s) = false ∧ (reapCycle s).live hd = false ∧
+theorem reapStep_eq (s : St κ) : reapStep s = match s.reaperQ with
+    | [] => s
+    | h :: q => if s.live h then { s with reaperQ := q, cancelReq := upd s.cancelReq h true, reaping := none }
+                else { s with reaperQ := q, reaping := none } := by
+  unfold reapStep reapStepCfg
+  simp only [current, Bool.not_true, Bool.false_and, Bool.false_eq_true, if_false]
+  cases s.reaperQ <;> rfl
+
+theorem reapCycle_spec (s : St κ) (hd : Task) (q : List Task) (hq : s.reaperQ = hd :: q) :
+    (reapCycle s).reaperQ = q ∧ (reapCycle s).live hd = false ∧
     (∀ u, (reapCycle s).live u = true → s.live u = true) := by
-  unfold reapCycle reapStep
-  simp only [hb, Bool.false_eq_true, if_false, hq]
-  by_cases hl : s.live hd = true
-  · simp only [hl, if_true]
-    refine ⟨(exit_queue _ hd).1, ?_, by rw [exit_live]; simp, ?_⟩
-    · unfold busy; rw [(exit_queue _ hd).2.1]; simp only []
-      rw [exit_live]; simp
-    · intro u hu
-      rw [exit_live] at hu
-      split at hu
-      · cases hu
-      · exact hu
-  · have hl' := not_true_false hl
-    simp [hl', busy]
+  unfold reapCycle
+  simp only [hq]
+  have hr := reapStep_eq s
+  rw [hq] at hr
+  simp only [] at hr
+  refine ⟨?_, by rw [exit_live]; simp, ?_⟩
+  · rw [(exit_queue _ hd).1, hr]; split <;> rfl
+  · intro u hu
+    rw [exit_live] at hu
+    split at hu
+    · cases hu
+    · rw [hr] at hu; split at hu <;> exact hu
 
 theorem reapCycle_inv (s : St κ) (h : Inv s) : Inv (reapCycle s) := by
   unfold reapCycle
-  simp only []
   split
+  · exact h
   · exact inv_exit _ _ (inv_reap s h)
-  · exact inv_reap s h
 
-theorem reapCycle_idle (s : St κ) (hb : busy s = false) (hq : s.reaperQ = []) : reapCycle s = s := by
-  unfold reapCycle reapStep
-  simp only [hb, Bool.false_eq_true, if_false, hq]
-  cases hr : s.reaping with
-  | none => rfl
-  | some r =>
-    simp only []
-    apply exit_dead
-    unfold busy at hb; rw [hr] at hb; simp only [] at hb
-    simp [hb]
-
-theorem drain_spec : ∀ (n : Nat) (s : St κ), busy s = false → s.reaperQ.length = n →
-    (drain n s).reaperQ = [] ∧ busy (drain n s) = false ∧ (∀ t ∈ s.reaperQ, (drain n s).live t = false) ∧
+theorem drain_spec : ∀ (n : Nat) (s : St κ), s.reaperQ.length = n →
+    (drain n s).reaperQ = [] ∧ (∀ t ∈ s.reaperQ, (drain n s).live t = false) ∧
     (∀ u, (drain n s).live u = true → s.live u = true) := by
   intro n
   induction n with
   | zero =>
-    intro s hb hlen
+    intro s hlen
     have : s.reaperQ = [] := List.length_eq_zero_iff.1 hlen
-    simp [drain, this, hb]
+    simp [drain, this]
   | succ n ih =>
-    intro s hb hlen
+    intro s hlen
     cases hq : s.reaperQ with
     | nil => rw [hq] at hlen; cases hlen
     | cons hd q =>
-      obtain ⟨a, b, c, d⟩ := reapCycle_spec s hd q hb hq
+      obtain ⟨a, c, d⟩ := reapCycle_spec s hd q hq
       have hlen' : (reapCycle s).reaperQ.length = n := by rw [a]; rw [hq] at hlen; simpa using hlen
-      obtain ⟨a', b', c', d'⟩ := ih (reapCycle s) b hlen'
+      obtain ⟨a', c', d'⟩ := ih (reapCycle s) hlen'
       simp only [drain]
-      refine ⟨a', b', ?_, fun u hu => d u (d' u hu)⟩
+      refine ⟨a', ?_, fun u hu => d u (d' u hu)⟩
       intro t ht
       rcases List.mem_cons.1 ht with e | ht
       · subst e
@@ -910,5 +920,13 @@ theorem viewName_other (c c' n' : Str) (h : Sep c c') : viewName c (mkKey c' n')
     · exact absurd p h.1
     · exact absurd p h.2
   · rfl
+
+/-- tuple keys separate any two different contexts, whatever dots the names contain -/
+theorem keyOf_tuple_ne (c c' n n' : Str) (h : c ≠ c') : keyOf true c n ≠ keyOf true c' n' := by
+  simp only [keyOf, if_true, ne_eq, Prod.mk.injEq, not_and]
+  intro e; exact absurd e h
+
+theorem viewOf_tuple (c c' n : Str) : viewOf true c (keyOf true c' n) = if c' = c then some n else none := by
+  simp [viewOf, keyOf]
 
 end PsModel.C13
